@@ -332,6 +332,46 @@ func main() {
 	}
 	addBool("del_forward_returns_early", early, "deleteKeys returns from inside the per-member loop with the forwarded command's status")
 
+	// ---- structural facts: atomic operations (C07) and locks (C08)
+	atomGo := parse("internal/dmap/atomic.go")
+	onOwner := true
+	for _, fn := range []string{"atomicIncrDecr", "getPut", "atomicIncrByFloat"} {
+		fd := funcDecl(atomGo, "DMap", fn)
+		ok := false
+		if fd != nil && len(fd.Body.List) > 0 {
+			// the first statement forwards the request when atomicOwner says so, before the locker is taken
+			if ifs, isIf := fd.Body.List[0].(*ast.IfStmt); isIf && ifs.Init != nil &&
+				strings.Contains(src(ifs.Init), "atomicOwner(") && strings.Contains(src(ifs.Body), "client.Get(member") &&
+				strings.Contains(src(ifs.Body), "return") {
+				ok = true
+			}
+		}
+		onOwner = onOwner && ok
+	}
+	ao := funcDecl(atomGo, "DMap", "atomicOwner")
+	onOwner = onOwner && ao != nil && strings.Contains(src(ao), "PartitionByHKey(hkey).Owner()") &&
+		strings.Contains(src(ao), "!member.CompareByName(dm.s.rt.This())")
+	addBool("atomic_ops_run_on_owner", onOwner, "atomicIncrDecr, getPut and atomicIncrByFloat begin by forwarding to the partition owner (atomicOwner) before taking the member's named mutex")
+	lockGo := parse("internal/dmap/lock.go")
+	guarded := true
+	uk := funcDecl(lockGo, "DMap", "unlockKey")
+	lk := funcDecl(lockGo, "DMap", "leaseKey")
+	dlk := funcDecl(lockGo, "DMap", "deleteLockKey")
+	elk := funcDecl(lockGo, "DMap", "expireLockKey")
+	guarded = guarded && uk != nil && strings.Contains(src(uk), "dm.deleteLockKey(key, token)") && !strings.Contains(src(uk), "deleteKeys(")
+	guarded = guarded && lk != nil && strings.Contains(src(lk), "dm.expireLockKey(ctx, key, token, timeout)") && !strings.Contains(src(lk), "dm.Expire(")
+	if dlk != nil {
+		t := src(dlk)
+		guarded = guarded && strings.Index(t, "f.Lock()") >= 0 && strings.Index(t, "f.Lock()") < strings.Index(t, "checkLockOwnership(f, hkey, token)") &&
+			strings.Index(t, "checkLockOwnership(f, hkey, token)") < strings.Index(t, "deleteOnCluster(")
+	} else {
+		guarded = false
+	}
+	guarded = guarded && elk != nil && strings.Contains(src(elk), "e.lockToken = token")
+	cpc := funcDecl(putGo, "DMap", "checkPutConditions")
+	guarded = guarded && cpc != nil && strings.Contains(src(cpc), "checkLockOwnership(e.fragment, e.hkey, e.lockToken)")
+	addBool("lock_release_compares_under_fragment_lock", guarded, "unlockKey/leaseKey finish with deleteLockKey/expireLockKey, which compare the stored token under the fragment lock before deleting / updating the expiry")
+
 	// ---- structural facts: pub/sub (C14)
 	psGo := parse("internal/pubsub/pubsub.go")
 	pub := funcDecl(psGo, "PubSub", "Publish")
